@@ -277,7 +277,35 @@ def gen_flags() -> str:
         lrows.append(f'  ("Select", {"true" if const_flag(Select, "is_locked") else "false"})')
     except Untranslatable as e:
         PROBLEMS.append(str(e))
+    # which class DEFINES each engine method the model dispatches on (`match engine.kind with ...`): read through the MRO
+    drows = []
+    from lsst.daf.relation import iteration as _it, sql as _sq
+    for ecls in (_it.Engine, _sq.Engine):
+        ename = ecls.__module__.split(".")[-2] + "." + ecls.__name__
+        for m in ("backtrack_unary", "append_unary", "append_binary", "transfer", "materialize", "conform"):
+            definer = next((c for c in ecls.__mro__ if m in c.__dict__), None)
+            dname = "-" if definer is None else \
+                definer.__module__.split("lsst.daf.relation.")[-1] + "." + definer.__name__
+            drows.append(f'  ("{ename}", "{m}", "{dname}")')
+    # the base-class `backtrack_unary` (the one a database engine inherits) hands the tree back: `return tree, False, ...`
+    try:
+        import ast as _ast
+        import inspect as _inspect
+        import textwrap as _tw
+        from lsst.daf.relation._engine import Engine as _Base
+        fdef = next(n for n in _ast.walk(_ast.parse(_tw.dedent(_inspect.getsource(_Base.__dict__["backtrack_unary"]))))
+                    if isinstance(n, _ast.FunctionDef))
+        body = [b for b in fdef.body if not (isinstance(b, _ast.Expr) and isinstance(b.value, _ast.Constant))]
+        ok = (len(body) == 1 and isinstance(body[0], _ast.Return) and isinstance(body[0].value, _ast.Tuple)
+              and len(body[0].value.elts) == 3 and _ast.unparse(body[0].value.elts[0]) == "tree"
+              and _ast.unparse(body[0].value.elts[1]) == "False")
+        drows.append(f'  ("_engine.Engine", "backtrack_unary:body", "{"return tree, False" if ok else "other"}")')
+    except Exception as e:  # noqa: BLE001
+        PROBLEMS.append(f"[Flags] base backtrack_unary: {type(e).__name__}: {e}")
     return ("/- GENERATED by harness/extract.py -- do not edit. -/\nnamespace DafRel.Gen\n\n"
+            "/-- (engine class, method, defining class): the method resolution the model's dispatch on the engine\n"
+            "kind stands for. -/\n"
+            "def dispatch : List (String × String × String) := [\n" + ",\n".join(drows) + "]\n\n"
             "/-- (operation class, flag, value): every flag is `return <constant>` in the source. -/\n"
             "def flags : List (String × String × Bool) := [\n" + ",\n".join(rows) + "]\n\n"
             "/-- (relation class, is_locked) -/\n"
